@@ -3,7 +3,7 @@ from __future__ import annotations
 import z3
 from z3 import And, Or, Not, Implies, BoolVal, If
 from pyvc import terms as T
-from pyvc.terms import Ref, Int, RSeq, NONE, Cnt, Mem, Len, snoc, cat, ite, Nth, EMPTY, Without, Rem1, Minus
+from pyvc.terms import Ref, Int, RSeq, NONE, Cnt, Mem, Len, snoc, cat, ite, Nth, EMPTY, Without, Rem1, Minus, unit
 from pyvc.contracts import REG, Schema, LoopInv, Loose
 from pyvc.values import *
 from .common import *
@@ -131,3 +131,204 @@ def _(L):
         return [Schema("only-the-local-list-shrinks", (Ref,),
                        lambda x: If(x == ll, Len(new(x)) == n0 - k, new(x) == old(x)), trigger=("elems",))]
     return LoopInv(loose=[Loose("elems", c_elems)], facts=[k >= 0, k <= n0])
+
+
+# =============================================================================================== adjacency builders (C11)
+from .structure import uni_invs   # noqa: E402
+
+
+class AdjEnv:
+    """spec vocabulary of load_adj_dict for one adjacency argument `a`:
+         keys K (dict order), row(k); created(k, j) = the link made for the j-th entry of row(k) (existential witness family,
+         with inverse cell_key / cell_idx); M(p) = the vertices mentioned while processing the key prefix p, in order;
+         inc_rows(x, p) / inc_row(x, k, q) = the created links incident to x, in creation order"""
+
+    def __init__(self, a):
+        tag = str(a)
+        self.a = a
+        self.K = T.adj_keys(a)
+        self.created = z3.Function(f"created@{tag}", Ref, Int, Ref)
+        self.cell_key = z3.Function(f"cell_key@{tag}", Ref, Ref)
+        self.cell_idx = z3.Function(f"cell_idx@{tag}", Ref, Int)
+        self.M_ = z3.Function(f"mention@{tag}", RSeq, RSeq)
+        self.inck_ = z3.Function(f"inc_rows@{tag}", Ref, RSeq, RSeq)
+        self.incq_ = z3.Function(f"inc_row@{tag}", Ref, Ref, RSeq, RSeq)
+
+    def row(self, k):
+        return T.adj_row(self.a, k)
+
+    def is_created(self, l):
+        return self.created(self.cell_key(l), self.cell_idx(l)) == l
+
+    def done(self, l, p, k=None, q=None):
+        """l is one of the links created while processing the key prefix p (and the prefix q of row(k))"""
+        ck, cj = self.cell_key(l), self.cell_idx(l)
+        full = And(Mem(p, ck), cj >= 0, cj < Len(self.row(ck)))
+        if k is None:
+            return And(self.is_created(l), full)
+        return And(self.is_created(l), Or(full, And(ck == k, cj >= 0, cj < Len(q))))
+
+    def mentioned(self, p, k=None, q=None):
+        m = self.M_(p)
+        return m if k is None else cat(m, unit(k), q)
+
+    def incident(self, x, p, k=None, q=None):
+        r = self.inck_(x, p)
+        return r if k is None else cat(r, self.incq_(x, k, q))
+
+    def defs_outer(self, p):
+        out = [self.M_(EMPTY()) == EMPTY()]
+        parts = T._flat(p)
+        if parts and T._is_unit(parts[-1]) and not T._is_empty(p):
+            k = parts[-1].arg(0)
+            head = cat(*parts[:-1])
+            out.append(self.M_(p) == cat(self.M_(head), unit(k), self.row(k)))
+        return out
+
+    def defs_outer_x(self, p):
+        """schemas (per vertex x): inc_rows by snoc recursion"""
+        sch = [Schema("inc_rows-nil", (Ref,), lambda x: self.inck_(x, EMPTY()) == EMPTY())]
+        parts = T._flat(p)
+        if parts and T._is_unit(parts[-1]) and not T._is_empty(p):
+            k = parts[-1].arg(0)
+            head = cat(*parts[:-1])
+            sch.append(Schema("inc_rows-snoc", (Ref,), lambda x: self.inck_(x, p) == cat(self.inck_(x, head), self.incq_(x, k, self.row(k)))))
+        return sch
+
+    def defs_inner_x(self, k, q):
+        sch = [Schema("inc_row-nil", (Ref,), lambda x: self.incq_(x, k, EMPTY()) == EMPTY())]
+        parts = T._flat(q)
+        if parts and T._is_unit(parts[-1]) and not T._is_empty(q):
+            w = parts[-1].arg(0)
+            head = cat(*parts[:-1])
+            l = self.created(k, Len(head))
+            sch.append(Schema("inc_row-snoc", (Ref,), lambda x: self.incq_(x, k, q) == If(Or(x == k, x == w), snoc(self.incq_(x, k, head), l), self.incq_(x, k, head))))
+        return sch
+
+
+def adj_post_state(A: AdjEnv, base: State_t, ct, u, Tcls, p, k=None, q=None):
+    """the heap after processing key prefix p (and row prefix q of key k), as updates of `base` (the heap right after `Universe()`)"""
+    st = base.copy()
+    ment = A.mentioned(p, k, q)
+    st.write("_vertices", u, T.Dedup(ment))                          # members: first mention order
+    st.write_where("_universes", lambda ad: (And(ad[0] != u, Mem(ment, ad[0])), snoc(base.unis(ad[0]), u)))
+    st.write_where("_links", lambda ad: (And(ad[0] != NONE, ct.is_a(ad[0], "Vertex")), cat(base.links(ad[0]), A.incident(ad[0], p, k, q))))
+    st.write_where("_vertices", lambda ad: (A.done(ad[0], p, k, q),
+                                            T.seq_of(A.cell_key(ad[0]), T.Nth(A.row(A.cell_key(ad[0])), A.cell_idx(ad[0])))))
+    st.write_where("_universes", lambda ad: (A.done(ad[0], p, k, q), EMPTY()))
+    return st
+
+
+State_t = object
+
+
+def created_facts(A: AdjEnv, S, ct, Tcls, p, k=None, q=None):
+    """properties of the links created so far (schemas over l): new objects of the requested class, unknown to the old heap"""
+    def f1(l):
+        return Implies(A.done(l, p, k, q), And(l != NONE, T.cls_of(l) == Tcls, Not(S.read("dyn_has", l, z3.StringVal("?")))))
+
+    def f2(x, l):
+        return Implies(A.done(l, p, k, q), And(Not(Mem(S.links(x), l)), Not(Mem(S.ends(x), l)), Not(Mem(S.unis(x), l)), l != x if False else BoolVal(True)))
+    return [Schema("created-links-are-of-the-requested-class", (Ref,), f1),
+            Schema("created-links-are-new", (Ref, Ref), f2, trigger=("product",))]
+
+
+# DRAFT (not registered for any property): the obligations of the two nested creation loops do not discharge within the solver
+# budgets yet (existential family of created links + three fold specifications); see DESIGN.md 12.5.  C11 / C20 are not claimed.
+@contract("adjlist.load_adj_dict", "adjdict:adj, linktype:cls<=TwoEndedLink=UnDirectedEdge", props=("C11-draft",), shards=6)
+def _(c):
+    S, ct, a, Tcls = c.S, c.ct, c.adjdict, c.linktype
+    A = AdjEnv(a)
+    assoc_invs(c)
+    uni_invs(c)
+    c.assume_inv(I1_sym(S, ct))
+    c.assume_inv(TY_laws(S, ct))
+    c.assume_inv(Schema("keys-are-distinct-vertices", (Ref,), lambda x: And(Cnt(A.K, x) <= 1, Implies(Mem(A.K, x), And(x != NONE, ct.is_a(x, "Vertex"))))))
+    c.assume_inv(Schema("rows-hold-vertices", (Ref, Ref), lambda k, w: Implies(And(Mem(A.K, k), Mem(A.row(k), w)), And(w != NONE, ct.is_a(w, "Vertex"))),
+                        pair_from=("adj_row",)))
+    o = c.normal()
+    u = o.fresh("Universe", "uni")
+    Lw = o.fresh("UniverseLaws", "laws")
+    # Universe(): empty, with its own fresh law set
+    base = o.post
+    base.write("_links", u, EMPTY())
+    base.write("_universes", u, EMPTY())
+    base.write("_vertices", u, EMPTY())
+    base.write("_universes", Lw, EMPTY())
+    base.write("_laws", u, Lw)
+    base.write("_applies_to", Lw, u)
+    o.o.post = adj_post_state(A, base, ct, u, Tcls, A.K)
+    o.result(VRef(u, "Universe"))
+    for sch in created_facts(A, S, ct, Tcls, A.K):
+        o.fact_schema(sch)
+    o.loose("_uid", lambda new, old, *_: [Schema("uids-of-old-objects-unchanged", (Ref,), lambda x: Implies(
+        And(x != u, x != Lw, Not(A.done(x, A.K))), new(x) == old(x)), trigger=("_uid",))])
+    for f_ in ("_mixed_links", "_cycles", "_multipath", "_multiverse", "_edge_whitelist"):
+        o.loose(f_, lambda new, old, *_, f_=f_: [Schema("only-new-laws-written", (Ref,), lambda x: Implies(x != Lw, new(x) == old(x)), trigger=(f_,))])
+    o.loose("memo_has", lambda new, old, *_: [Schema("memo-only-shrinks", MEMO_KEY, lambda v, d, uu, f: Implies(new(v, d, uu, f), old(v, d, uu, f)), trigger=("memo_has",))])
+    stats_monotone(o)
+    o.loose("dyn_has", lambda new, old, *_: [Schema("attributes-of-old-objects-unchanged", (Ref, T.Str), lambda x, n: Implies(
+        And(x != u, x != Lw, Not(A.done(x, A.K))), new(x, n) == old(x, n)), trigger=("dyn_has",))])
+    o.loose("dyn_val", lambda new, old, *_: [Schema("attribute-values-of-old-objects-unchanged", (Ref, T.Str), lambda x, n: Implies(
+        And(x != u, x != Lw, Not(A.done(x, A.K))), new(x, n) == old(x, n)), trigger=("dyn_val",))])
+    o.loose("init_count", lambda new, old, *_: [])
+    o.loose("init_args", lambda new, old, *_: [])
+
+
+def adj_loop_inv(L, k=None, q=None):
+    """shared invariant of the two loops of load_adj_dict (k, q: the key being processed and the prefix of its row)"""
+    ct = L.engine.ct
+    a, Tcls = L.args["adjdict"].term, L.args["linktype"].term
+    A = AdjEnv(a)
+    u = L.env["uni"].term
+    S0 = L.pre                                  # heap at function entry
+    if k is None:
+        E, p = L.st, L.prefix                   # heap right after Universe()
+        L.engine._adj_base = E
+    else:
+        E = L.engine._adj_base
+        p = L.env["$P"].term
+    st = adj_post_state(A, E, ct, u, Tcls, p, k, q)
+    Lw = E.laws(u)
+    old_obj = lambda x: And(x != u, x != Lw, Not(A.done(x, p, k, q)))
+    loose = [
+        Loose("_uid", lambda new, old, *_: [Schema("uids-of-old-objects-unchanged", (Ref,), lambda x: Implies(old_obj(x), new(x) == S0.read("_uid", x)), trigger=("_uid",))]),
+        Loose("memo_has", lambda new, old, *_: [Schema("memo-only-shrinks", MEMO_KEY, lambda v, d, uu, f: Implies(new(v, d, uu, f), S0.memo_has(v, d, uu, f)), trigger=("memo_has",))]),
+        Loose("stats_has", lambda new, old, *_: [Schema("stats-monotone", (Int,), lambda n: Implies(S0.read("stats_has", n), new(n)), trigger=("stats_has",))]),
+        Loose("dyn_has", lambda new, old, *_: [Schema("attributes-of-old-objects-unchanged", (Ref, T.Str), lambda x, n: Implies(old_obj(x), new(x, n) == S0.read("dyn_has", x, n)), trigger=("dyn_has",))]),
+        Loose("dyn_val", lambda new, old, *_: [Schema("attribute-values-of-old-objects-unchanged", (Ref, T.Str), lambda x, n: Implies(old_obj(x), new(x, n) == S0.read("dyn_val", x, n)), trigger=("dyn_val",))]),
+        Loose("init_count", lambda new, old, *_: []), Loose("init_args", lambda new, old, *_: []),
+    ]
+    inc = lambda x: A.incident(x, p, k, q)
+    schemas = created_facts(A, S0, ct, Tcls, p, k, q) + [
+        Schema("incident-links-are-created-here", (Ref, Ref), lambda x, l: Implies(Mem(inc(x), l), And(
+            A.done(l, p, k, q), Or(x == A.cell_key(l), x == T.Nth(A.row(A.cell_key(l)), A.cell_idx(l))))), pair_from=("inc_row", "inc_rows")),
+        Schema("incident-links-not-repeated", (Ref, Ref), lambda x, l: Cnt(inc(x), l) <= 1, pair_from=("inc_row", "inc_rows")),
+        Schema("mentioned-are-vertices", (Ref,), lambda x: Implies(Mem(A.mentioned(p, k, q), x), And(x != NONE, ct.is_a(x, "Vertex"), x != u))),
+    ]
+    gdefs = A.defs_outer(p)
+    sdefs = A.defs_outer_x(p)
+    define = {}
+    if k is None:
+        define["$P"] = VSeq(p)
+    else:
+        sdefs = sdefs + A.defs_inner_x(k, q)
+        if L.phase == "check":
+            # witness for the existential family: the link this iteration created is created(k, |q0|)
+            news = [r for (r, _c, kind) in L.path.allocs if kind == "obj"]
+            if news:
+                l_new = news[-1]
+                q0 = cat(*T._flat(q)[:-1]) if T._is_concat(q) or T._is_unit(q) else q
+                j = Len(q0)
+                gdefs = gdefs + [A.created(k, j) == l_new, A.cell_key(l_new) == k, A.cell_idx(l_new) == j]
+    return LoopInv(state=st, loose=loose, schemas=schemas, ground_defs=gdefs, defs=sdefs, define=define)
+
+
+@REG.loop("adjlist.load_adj_dict", 0)
+def _(L):
+    return adj_loop_inv(L)
+
+
+@REG.loop("adjlist.load_adj_dict", 1)
+def _(L):
+    return adj_loop_inv(L, L.env["v1"].term, L.prefix)
